@@ -41,13 +41,27 @@ deleted construct is a violated instance:
         only if new_relation() accepted it
  W2 [2] relation(): the member position passed to track() is a counter from 0 incremented once per member, after its use
  W3 [4] every consumer in a manager class that uses member.ref() as a lookup / release key skips ref() == 0
- D1     member_database(type): `case item_type::X` returns the MembersDatabase<T> member with T::itemtype == X (both
-        overloads; DISPATCH)
+ D1     member_database(type): for type == item_type::X every reachable return yields the MembersDatabase<T> member with
+        T::itemtype == X (both overloads; DISPATCH, value-directed CFG walk)
  I1     a released relation is not listed as incomplete: RelationsDatabase::remove releases the stash item and then
         invalidates the handle; for_each_relation visits every position and calls back only for valid handles;
         for_each_incomplete_relation forwards to it
  C1 [2] the member counter: starts at 0 in RelationsDatabase::add (which returns the handle of the element just pushed),
         increment is ++, decrement is --, has_all_members is == 0, all on RelationsDatabase::members(m_pos)
+
+Spelling independence (behaviour-preserving rewrites must stay silent, violations inside them must still fire):
+ * every per-function rule is first decided on the function as written; if it does not hold there it is decided again on
+   a view in which the function's own helpers -- methods of the same object, called on `this`, that take part in the
+   protocol (touch a database / handle / stash, call a functor parameter, contain an element loop, mutate a member
+   container) -- are expanded in place (c11_util.inline_calls: callee blocks spliced into the CFG, parameters aliased to
+   the argument expressions).  The subject of a role is the OUTERMOST function having it, so an extracted helper is
+   analysed as part of the method it was extracted from;
+ * loops are "element loops" (c11_util.elem_loops): range-for, iterator for, iterator while; loop membership is taken
+   from the CFG, not from source ranges;
+ * named locals are looked through (c11_util.origin, guard_conds): `auto& db = member_database(t)`, `const bool last =
+   (live == 1)`, `const auto handle = range.begin()->object_handle`, early `continue`/`return` versus if/else;
+ * D1 walks the CFG for each item_type value (switch, if-chain or a mixture); the live-reference count may be
+   std::count_if or an equivalent counting loop.
 
 NOT decided: exactly-once completion for all histories; identity of the retrieved member objects with the input; the
 behaviour of lookups after release (MembersDatabaseCommon::get_object dereferences the stash handle of an already
@@ -57,7 +71,7 @@ overload taking a ProgressBar is not instantiated by the drivers and therefore n
 follows the callback" is implemented in the weaker inter-procedural form stated under H1 because a flush inside
 handle_complete_relation is redundant with the one every second-pass handler performs after add().
 """
-from ..c11_util import (Collector, call_edge_filter, elem_loops, inline_calls, calls, can_follow, counts_from_zero_by_one, every_path_passes, exactly_once, guard_conds, in_loop, live,
+from ..c11_util import (Collector, call_edge_filter, elem_loops, inline_calls, loop_contains, calls, can_follow, counts_from_zero_by_one, every_path_passes, exactly_once, guard_conds, live,
                         nonzero_guarded, origin, param_root, subtree_calls, var_edge_filter, zero_test)
 from ..flow import describe_path
 from .. import sorted as S
@@ -95,6 +109,62 @@ class Model(object):
     pass
 
 
+def _site_id(fn, n):
+    """Identity of a node across the plain and the inlined view of a function (never used as an instance key)."""
+    return (n.get('f', fn.file), n.get('o'))
+
+
+def _tops(fns):
+    """Of several candidate functions for one role keep the outermost: drop those called by another candidate (an
+    extracted helper shares the role-defining statement with the method it was extracted from)."""
+    usrs = {f.usr for f in fns}
+    called = set()
+    for f in fns:
+        for n in f.all_nodes():
+            if n.get('k') == 'call' and n.get('u') in usrs and n['u'] != f.usr:
+                called.add(n['u'])
+    return [f for f in fns if f.usr not in called]
+
+
+def _participates(g):
+    """The helper's body contains something the rules reason about (calls into the databases / handles / stash, a functor
+    call, an element loop); accessors such as derived(), member_database(), possibly_flush() do not."""
+    for n in g.all_nodes():
+        if n.get('k') != 'call':
+            continue
+        q = n.get('q', '')
+        if q.startswith((RH + '::', STASH + '::', MEMBER + '::set_ref')) or n.get('rcls') in (MDC, MD, RDB, RH):
+            return True
+        if n.get('op') == '()' and n.get('recv') is not None:
+            r = g.root_var(n['recv'])
+            if r is not None and r[0] == 'var' and any(p['d'] == r[1] for p in g.params):
+                return True
+        if n.get('recv') is not None and q.rsplit('::', 1)[-1] in S.ORDER_BREAKING and g.is_this_member(n['recv']):
+            return True
+    return bool(elem_loops(g))
+
+
+def per_fn(fb, R, M, fn, body):
+    """Evaluate a per-function rule body; if it does not hold on the function as written, decide it on the view in which
+    the function's own helpers (methods of the same object that take part in the protocol) are expanded in place, so an
+    extract-helper refactoring neither hides a violation nor causes one."""
+    c = Collector()
+    body(fn, c)
+    if c.failed:
+        def should(view, n, g):
+            if g.is_lambda or g.cls not in (MDC, MD, RDB, RM, RMB) or g.q in M.anchors or g.kind in ('ctor', 'dtor'):
+                return False
+            if n.get('recv') is not None and (view.sn(n['recv']) or {}).get('k') != 'this':
+                return False
+            return _participates(g)
+        v = inline_calls(fb, fn, should)
+        if v is not fn:
+            c2 = Collector()
+            body(v, c2)
+            c = c2
+    c.replay(R)
+
+
 def _one_q(fns):
     return sorted({f.q for f in fns})
 
@@ -121,7 +191,7 @@ def build_model(fb, R):
     M.sorters = M.proto.reaching('sort')
     M.find_qs = {s.fn.q for s in M.proto.searches}
     M.find_usrs = {s.fn.usr for s in M.proto.searches}
-    M.track_fns = sorted({id(m[0]): m[0] for m in M.proto.mutators}.values(), key=lambda f: f.line)
+    M.track_fns = sorted(_tops([f for fs in M.inserters.values() for f in fs]), key=lambda f: f.line)
     # release routine of the members database: calls ItemStash::remove_item on a member
     # release routine of the members database: releases a stash item or sets the removed mark of an element
     M.mark = _mark_model(fb, M)
@@ -140,7 +210,9 @@ def build_model(fb, R):
                 if any(calls(g, STASH + '::add_item') for g in fb.by_usr.get(n['u'], [])):
                     return True
         return False
-    M.add_fns = [f for f in fb.functions if f.cls == MD and f.has_cfg and not f.is_lambda and _add_role(f)]
+    M.add_fns = _tops([f for f in fb.functions if f.cls == MD and f.has_cfg and not f.is_lambda and _add_role(f)])
+    M.remove_fns = _tops(M.remove_fns)
+    M.anchors = set(M.sorters) | M.find_qs | {f.q for f in fb.functions if f.cls == MDC and f.has_cfg and calls(f, STASH + '::add_item')}
     M.search_key = None
     return M
 
@@ -319,66 +391,79 @@ def _relpos_fields(fb, M):
     return out
 
 
+def _mutator_calls(fn, M):
+    """Order-breaking mutator calls on the element vector in fn (works on inlined views, too)."""
+    out = []
+    for n in fn.all_nodes():
+        if n.get('k') == 'call' and n.get('recv') is not None and 'q' in n and n['q'].rsplit('::', 1)[-1] in S.ORDER_BREAKING:
+            r = fn.sn(n['recv'])
+            if r is not None and r.get('k') == 'member' and r.get('field') and r.get('q') == M.proto.field_q:
+                out.append(n)
+    return sorted(out, key=lambda n: n['id'])
+
+
 def track_rules(fb, R, M):
     if not M.track_fns:
         R.broken('%s: no inserting method (track) found' % MDC)
         return
     keyf = (M.search_key.fields() or [None])[0] if M.search_key is not None else None
     relpos = _relpos_fields(fb, M)
-    for fn in M.track_fns:
-        muts = [m[1] for m in M.proto.mutators if m[0] is fn]
-        hparams = [i for i, p in enumerate(fn.params) if S.plain_name(p['tC']) == RH]
-        incs = [n for i in hparams for n in calls(fn, RH + '::increment_members', on=param_root(fn, i))]
-        why1 = exactly_once(fn, [m['id'] for m in muts])
-        why2 = exactly_once(fn, [n['id'] for n in incs]) if incs else 'no increment_members() on the handle parameter'
-        R.check(why1 is None and why2 is None, 'T1-track-pairs-insert-increment', fn.q + '#one-insert-and-one-increment-per-call', fn.site,
-                'insertion into %s: %s; increment_members(): %s -- the member count of the relation no longer equals the number of '
-                'tracked elements' % (M.cont, why1 or 'exactly once', why2 or 'exactly once'))
-        # ---- T2 roles
-        for m in muts:
-            args = [a for a in m.get('args', []) if a is not None]
-            if m['q'].endswith('push_back') and len(args) == 1:
-                c = fn.sn(args[0])
-                hops = 0
-                while c is not None and c.get('k') in ('cast', 'construct') and hops < 4 and not (c.get('k') == 'construct' and c.get('q') == M.elem + '::(ctor)' and not c.get('copymove')):
-                    c = fn.sn((c.get('args') or [c.get('sub')])[0])
-                    hops += 1
-                if c is not None and c.get('k') == 'construct':
-                    args = [a for a in c.get('args', []) if a is not None]
-            ctor = _elem_ctor(fb, M, len(args))
-            if ctor is None:
-                R.broken('%s: cannot resolve the element constructor used by the insertion (arity %d)' % (fn.q, len(args)))
-                continue
-            src = S.ctor_field_sources(fb, ctor)
-            field_of_arg = {s[1]: fq for fq, s in src.items() if s[0] == 'param'}
-            pos_arg = [j for j, a in enumerate(args) if (origin(fn, a) or {}).get('q') == RH + '::pos'
-                       and fn.root_var((origin(fn, a) or {}).get('recv')) in [param_root(fn, i) for i in hparams]]
-            fpos = field_of_arg.get(pos_arg[0]) if len(pos_arg) == 1 else None
-            used = sorted(relpos)
-            R.check(fpos is not None and used == [fpos], 'T2-element-field-roles', fn.q + '#handle-position-stored-in-the-field-used-for-relation-lookup',
-                    fn.loc(m['id']), 'track() stores rel_handle.pos() in %s but add()/remove() index the relations database with %s' % (
-                        fpos, ', '.join(used) or 'nothing'))
-            # member id: the parameter that every caller feeds with RelationMember::ref()
-            ref_params = set()
-            ncallers = 0
-            for g in fb.functions:
-                if not g.has_cfg:
+    for fn0 in M.track_fns:
+        def body(fn, R, fn0=fn0):
+            muts = _mutator_calls(fn, M)
+            hparams = [i for i, p in enumerate(fn.params) if S.plain_name(p['tC']) == RH]
+            incs = [n for i in hparams for n in calls(fn, RH + '::increment_members', on=param_root(fn, i))]
+            why1 = exactly_once(fn, [m['id'] for m in muts])
+            why2 = exactly_once(fn, [n['id'] for n in incs]) if incs else 'no increment_members() on the handle parameter'
+            R.check(why1 is None and why2 is None, 'T1-track-pairs-insert-increment', fn.q + '#one-insert-and-one-increment-per-call', fn.site,
+                    'insertion into %s: %s; increment_members(): %s -- the member count of the relation no longer equals the number of '
+                    'tracked elements' % (M.cont, why1 or 'exactly once', why2 or 'exactly once'))
+            # ---- T2 roles
+            for m in muts:
+                args = [a for a in m.get('args', []) if a is not None]
+                if m['q'].endswith('push_back') and len(args) == 1:
+                    c = fn.sn(args[0])
+                    hops = 0
+                    while c is not None and c.get('k') in ('cast', 'construct') and hops < 4 and not (c.get('k') == 'construct' and c.get('q') == M.elem + '::(ctor)' and not c.get('copymove')):
+                        c = fn.sn((c.get('args') or [c.get('sub')])[0])
+                        hops += 1
+                    if c is not None and c.get('k') == 'construct':
+                        args = [a for a in c.get('args', []) if a is not None]
+                ctor = _elem_ctor(fb, M, len(args))
+                if ctor is None:
+                    R.broken('%s: cannot resolve the element constructor used by the insertion (arity %d)' % (fn.q, len(args)))
                     continue
-                for c in calls(g, fn.q):
-                    ncallers += 1
-                    for i, a in enumerate(c.get('args', [])):
-                        if a is not None and (g.sn(a) or {}).get('q') == MEMBER + '::ref':
-                            ref_params.add(i)
-            fid = None
-            if len(ref_params) == 1:
-                pi = list(ref_params)[0]
-                js = [j for j, a in enumerate(args) if fn.root_var(a) == param_root(fn, pi) and (fn.sn(a) or {}).get('k') == 'var']
-                fid = field_of_arg.get(js[0]) if len(js) == 1 else None
-            if ncallers == 0:
-                R.broken('%s has no caller in the fact base' % fn.q)
-            elif keyf is not None:      # unknown search key: already reported as analysis-broken by S1
-                R.check(fid is not None and fid == keyf, 'T2-element-field-roles', fn.q + '#member-ref-stored-in-the-search-key-field', fn.loc(m['id']),
-                        'the member id passed by the manager lands in %s but lookups search by %s' % (fid, keyf))
+                src = S.ctor_field_sources(fb, ctor)
+                field_of_arg = {s[1]: fq for fq, s in src.items() if s[0] == 'param'}
+                pos_arg = [j for j, a in enumerate(args) if (origin(fn, a) or {}).get('q') == RH + '::pos'
+                           and fn.root_var((origin(fn, a) or {}).get('recv')) in [param_root(fn, i) for i in hparams]]
+                fpos = field_of_arg.get(pos_arg[0]) if len(pos_arg) == 1 else None
+                used = sorted(relpos)
+                R.check(fpos is not None and used == [fpos], 'T2-element-field-roles', fn.q + '#handle-position-stored-in-the-field-used-for-relation-lookup',
+                        fn.loc(m['id']), 'track() stores rel_handle.pos() in %s but add()/remove() index the relations database with %s' % (
+                            fpos, ', '.join(used) or 'nothing'))
+                # member id: the parameter that every caller feeds with RelationMember::ref()
+                ref_params = set()
+                ncallers = 0
+                for g in fb.functions:
+                    if not g.has_cfg:
+                        continue
+                    for c in calls(g, fn.q):
+                        ncallers += 1
+                        for i, a in enumerate(c.get('args', [])):
+                            if a is not None and (g.sn(a) or {}).get('q') == MEMBER + '::ref':
+                                ref_params.add(i)
+                fid = None
+                if len(ref_params) == 1:
+                    pi = list(ref_params)[0]
+                    js = [j for j, a in enumerate(args) if fn.root_var(a) == param_root(fn, pi) and (fn.sn(a) or {}).get('k') == 'var']
+                    fid = field_of_arg.get(js[0]) if len(js) == 1 else None
+                if ncallers == 0:
+                    R.broken('%s has no caller in the fact base' % fn.q)
+                elif keyf is not None:      # unknown search key: already reported as analysis-broken by S1
+                    R.check(fid is not None and fid == keyf, 'T2-element-field-roles', fn.q + '#member-ref-stored-in-the-search-key-field', fn.loc(m['id']),
+                            'the member id passed by the manager lands in %s but lookups search by %s' % (fid, keyf))
+        per_fn(fb, R, M, fn0, body)
     # search value of find()
     for se in (M.proto.searches if keyf is not None else []):
         fn = se.fn
@@ -423,98 +508,105 @@ def add_rules(fb, R, M):
         R.broken('%s: no method that decrements the member counter (add) found' % MD)
         return
     relpos = _relpos_fields(fb, M)
-    for fn in M.add_fns:
-        q = fn.q
-        fr = _found_range(fn, M)
-        if fr is None:
-            R.broken('%s: no local initialised from the lookup' % fn.full)
-            continue
-        rd, rname, fcall = fr
-        rroot = ('var', rd, rname)
-        a0 = (fcall.get('args') or [None])[0]
-        an = fn.sn(a0) if a0 is not None else None
-        ok = an is not None and an.get('q') == 'osmium::OSMObject::id' and fn.root_var(an.get('recv')) == param_root(fn, 0)
-        R.check(ok, 'A1-add-decrements-each-found-element', q + '#looks-up-by-the-object-id', fn.loc(fcall['id']),
-                'add() must search for object.id() of its first parameter')
-        loops = [L for L in elem_loops(fn) if fn.root_var(L.seq) == rroot]
-        if len(loops) != 1:
-            R.bad('A1-add-decrements-each-found-element', q + '#one-decrement-per-element', fn.site,
-                  'add() does not iterate over the found range exactly once (%d loops)' % len(loops))
-            continue
-        L = loops[0]
-        lroots = L.roots
-        # handle of the element's relation
-        hvars = []
-        for n in fn.all_nodes():
-            if n.get('k') == 'decl' and in_loop(fn, L, n['id']):
-                for v in n['vars']:
-                    if isinstance(v.get('init'), int):
-                        cs = subtree_calls(fn, v['init'], RDB + '::operator[]')
-                        if cs and any(_elem_field_of(fn, a, M) and fn.root_var(a) in lroots for a in cs[0].get('args', []) if a is not None):
-                            hvars.append(('var', v['d'], v['name']))
-        if len(hvars) != 1:
-            R.bad('A1-add-decrements-each-found-element', q + '#one-decrement-per-element', fn.site,
-                  'add(): the loop does not fetch the relation handle of the current element (m_relations_db[elem.<pos>])')
-            continue
-        h = hvars[0]
-        decs = [n for n in calls(fn, RH + '::decrement_members')]
-        on_h = [n for n in decs if fn.root_var(n['recv']) == h]
-        why = exactly_once(fn, [n['id'] for n in on_h], start=L.start, until=[L.inc]) if on_h else 'no decrement on the element\'s relation handle'
-        R.check(why is None and len(on_h) == len(decs), 'A1-add-decrements-each-found-element', q + '#one-decrement-per-element', fn.site,
-                'decrement_members() per found element: %s' % (why or 'a decrement targets another handle'))
-        # A2
-        has = [n for n in calls(fn, RH + '::has_all_members', on=h)]
-        fparams = [param_root(fn, i) for i in range(1, len(fn.params))]
-        fcalls = [n for n in fn.all_nodes() if n.get('k') == 'call' and n.get('op') == '()' and n.get('recv') is not None and fn.root_var(n['recv']) in fparams]
-        ok = bool(has) and bool(fcalls) and bool(on_h)
-        msg = 'has_all_members() on the handle / functor call missing'
-        if ok:
-            for c in fcalls:
-                g = [(n, s) for (n, s) in guard_conds(fn, c['id']) if n.get('k') == 'call' and n.get('q') == RH + '::has_all_members' and fn.root_var(n['recv']) == h]
-                if not g or not all(s for (_n, s) in g):
-                    ok, msg = False, 'the completion functor is called without has_all_members() being true'
-                elif not any(fn.elem_dominates(d['id'], n['id']) for (n, _s) in g for d in on_h):
-                    ok, msg = False, 'has_all_members() is tested before the decrement'
-                elif not [a for a in c.get('args', []) if a is not None and fn.root_var(a) == h]:
-                    ok, msg = False, 'the functor is not given the handle whose counter reached zero'
+    for fn0 in M.add_fns:
+        def body(fn, R, fn0=fn0):
+            q = fn.q
+            fr = _found_range(fn, M)
+            if fr is None:
+                R.broken('%s: no local initialised from the lookup' % fn.full)
+                return
+            rd, rname, fcall = fr
+            rroot = ('var', rd, rname)
+            a0 = (fcall.get('args') or [None])[0]
+            an = fn.sn(a0) if a0 is not None else None
+            ok = an is not None and an.get('q') == 'osmium::OSMObject::id' and fn.root_var(an.get('recv')) == param_root(fn, 0)
+            R.check(ok, 'A1-add-decrements-each-found-element', q + '#looks-up-by-the-object-id', fn.loc(fcall['id']),
+                    'add() must search for object.id() of its first parameter')
+            acts = [n['id'] for n in calls(fn, RH + '::decrement_members') + calls(fn, RH + '::has_all_members')]
+            loops = [L for L in elem_loops(fn) if fn.root_var(L.seq) == rroot and (not acts or any(loop_contains(fn, L, a) for a in acts))]
+            if len(loops) != 1:
+                R.bad('A1-add-decrements-each-found-element', q + '#one-decrement-per-element', fn.site,
+                      'add() does not iterate over the found range exactly once (%d loops)' % len(loops))
+                return
+            L = loops[0]
+            lroots = L.roots
+            # handle of the element's relation
+            hvars = []
+            for n in fn.all_nodes():
+                if n.get('k') == 'decl' and loop_contains(fn, L, n['id']):
+                    for v in n['vars']:
+                        if isinstance(v.get('init'), int):
+                            cs = subtree_calls(fn, v['init'], RDB + '::operator[]')
+                            if cs and any(_elem_field_of(fn, a, M) and fn.root_var(a) in lroots for a in cs[0].get('args', []) if a is not None):
+                                hvars.append(('var', v['d'], v['name']))
+            if len(hvars) != 1:
+                R.bad('A1-add-decrements-each-found-element', q + '#one-decrement-per-element', fn.site,
+                      'add(): the loop does not fetch the relation handle of the current element (m_relations_db[elem.<pos>])')
+                return
+            h = hvars[0]
+            decs = [n for n in calls(fn, RH + '::decrement_members')]
+            on_h = [n for n in decs if fn.root_var(n['recv']) == h]
+            why = exactly_once(fn, [n['id'] for n in on_h], start=L.start, until=[L.inc]) if on_h else 'no decrement on the element\'s relation handle'
+            R.check(why is None and len(on_h) == len(decs), 'A1-add-decrements-each-found-element', q + '#one-decrement-per-element', fn.site,
+                    'decrement_members() per found element: %s' % (why or 'a decrement targets another handle'))
+            # A2
+            has = [n for n in calls(fn, RH + '::has_all_members', on=h)]
+            fparams = [param_root(fn, i) for i in range(1, len(fn.params))]
+            fcalls = [n for n in fn.all_nodes() if n.get('k') == 'call' and n.get('op') == '()' and n.get('recv') is not None and fn.root_var(n['recv']) in fparams]
+            ok = bool(has) and bool(fcalls) and bool(on_h)
+            msg = 'has_all_members() on the handle / functor call missing'
             if ok:
-                hid = {n['id'] for n in has}
+                for c in fcalls:
+                    g = [(n, s) for (n, s) in guard_conds(fn, c['id']) if n.get('k') == 'call' and n.get('q') == RH + '::has_all_members' and fn.root_var(n['recv']) == h]
+                    if not g or not all(s for (_n, s) in g):
+                        ok, msg = False, 'the completion functor is called without has_all_members() being true'
+                    elif not any(fn.elem_dominates(d['id'], n['id']) for (n, _s) in g for d in on_h):
+                        ok, msg = False, 'has_all_members() is tested before the decrement'
+                    elif not [a for a in c.get('args', []) if a is not None and fn.root_var(a) == h]:
+                        ok, msg = False, 'the functor is not given the handle whose counter reached zero'
+                if ok:
+                    hid = {n['id'] for n in has}
 
-                edge_ok = call_edge_filter(fn, lambda c, hid=hid: c.get('id') in hid, True)
-                for hn in has:
-                    w = every_path_passes(fn, [c['id'] for c in fcalls], start=hn['id'], until=[L.inc], edge_ok=edge_ok)
-                    if w is not None:
-                        ok, msg = False, 'a path with has_all_members() true skips the functor: ' + describe_path(fn, w)
-                if can_follow(fn, [c['id'] for c in fcalls], [c['id'] for c in fcalls], [L.inc]) is not None:
-                    ok, msg = False, 'the functor can run twice for one element'
-        R.check(ok, 'A2-functor-iff-complete', q + '#functor-iff-has-all-members', fn.site, msg)
-        # A3 stored before completion
-        stores = []
-        for n in fn.all_nodes():
-            if n.get('k') == 'call' and n.get('recv') is not None and (fn.sn(n['recv']) or {}).get('k') == 'this' and n.get('u'):
-                for g in fb.by_usr.get(n['u'], []):
-                    if calls(g, STASH + '::add_item'):
-                        if any(fn.root_var(a) == param_root(fn, 0) for a in n['args'] if a is not None) and any(fn.root_var(a) == rroot for a in n['args'] if a is not None):
-                            stores.append((n, g))
-        ok = bool(stores) and all(any(fn.elem_dominates(s['id'], c['id']) for (s, _g) in stores) for c in fcalls)
-        R.check(ok, 'A3-object-stored-before-callback', q + '#object-stored-before-completion', fn.site,
-                'add() must store the object (add_object(object, range)) before any completion functor can run: the callback retrieves its members from the stash')
-        for (_s, g) in stores[:1]:
-            _add_object_rule(fb, R, M, g)
-        # A4
-        rets = [n for n in fn.all_nodes() if n.get('k') == 'return' and 'sub' in n and live(fn, n['id'])]
-        ok = len(rets) >= 2
-        for r in rets:
-            v = fn.const_value(r['sub'])
-            emp = [s for (n, s) in guard_conds(fn, r['id']) if n.get('k') == 'call' and n.get('q', '').endswith('::empty') and fn.root_var(n['recv']) == rroot]
-            if v == 0:
-                ok = ok and bool(emp) and all(emp)
-            elif v == 1:
-                ok = ok and bool(emp) and not any(emp)
-            else:
-                ok = False
-        R.check(ok, 'A4-add-result', q + '#false-iff-nothing-found', fn.site,
-                'add() must return false exactly when the found range is empty (it decides X_not_in_any_relation)')
+                    edge_ok = call_edge_filter(fn, lambda c, hid=hid: c.get('id') in hid, True)
+                    for hn in has:
+                        w = every_path_passes(fn, [c['id'] for c in fcalls], start=hn['id'], until=[L.inc], edge_ok=edge_ok)
+                        if w is not None:
+                            ok, msg = False, 'a path with has_all_members() true skips the functor: ' + describe_path(fn, w)
+                    if can_follow(fn, [c['id'] for c in fcalls], [c['id'] for c in fcalls], [L.inc]) is not None:
+                        ok, msg = False, 'the functor can run twice for one element'
+            R.check(ok, 'A2-functor-iff-complete', q + '#functor-iff-has-all-members', fn.site, msg)
+            # A3 stored before completion
+            stores = []
+            for n in fn.all_nodes():
+                if n.get('k') == 'call' and n.get('recv') is not None and (fn.sn(n['recv']) or {}).get('k') == 'this' and n.get('u'):
+                    for g in fb.by_usr.get(n['u'], []):
+                        if calls(g, STASH + '::add_item'):
+                            if any(fn.root_var(a) == param_root(fn, 0) for a in n['args'] if a is not None) and any(fn.root_var(a) == rroot for a in n['args'] if a is not None):
+                                stores.append((n, g))
+            ok = bool(stores) and all(any(fn.elem_dominates(s['id'], c['id']) for (s, _g) in stores) for c in fcalls)
+            R.check(ok, 'A3-object-stored-before-callback', q + '#object-stored-before-completion', fn.site,
+                    'add() must store the object (add_object(object, range)) before any completion functor can run: the callback retrieves its members from the stash')
+            for (_s, g) in stores[:1]:
+                _add_object_rule(fb, R, M, g)
+            # A4
+            rets = [n for n in fn.all_nodes() if n.get('k') == 'return' and 'sub' in n and live(fn, n['id'])]
+            ok = len(rets) >= 2
+            for r in rets:
+                v = fn.const_value(r['sub'])
+                rn = fn.sn(r['sub'])
+                if v is None and rn is not None and rn.get('k') == 'var':       # `return needed;` under `if (!needed)`
+                    vs = {s for (n, s) in guard_conds(fn, r['id']) if n.get('k') == 'var' and n.get('d') == rn.get('d')}
+                    v = int(list(vs)[0]) if len(vs) == 1 else None
+                emp = [s for (n, s) in guard_conds(fn, r['id']) if n.get('k') == 'call' and n.get('q', '').endswith('::empty') and fn.root_var(n['recv']) == rroot]
+                if v == 0:
+                    ok = ok and bool(emp) and all(emp)
+                elif v == 1:
+                    ok = ok and bool(emp) and not any(emp)
+                else:
+                    ok = False
+            R.check(ok, 'A4-add-result', q + '#false-iff-nothing-found', fn.site,
+                    'add() must return false exactly when the found range is empty (it decides X_not_in_any_relation)')
+        per_fn(fb, R, M, fn0, body)
 
 
 def _add_object_rule(fb, R, M, g):
@@ -577,35 +669,64 @@ def _mark_model(fb, M):
 
 
 def _counts_unmarked(fb, g, pred_q):
-    """g returns std::count_if(range.begin(), range.end(), [](e){ return !e.pred(); }) over its range parameter."""
-    cs = calls(g, 'std::count_if')
-    rets = [n for n in g.all_nodes() if n.get('k') == 'return' and 'sub' in n]
-    if len(cs) != 1 or len(rets) != 1 or g.strip(rets[0]['sub']) != cs[0]['id'] and cs[0]['id'] not in g.subtree(rets[0]['sub']):
-        return 'is not a single std::count_if over the range'
-    c = cs[0]
-    args = [a for a in c.get('args', []) if a is not None]
-    if len(args) != 3:
-        return 'count_if arity'
-    b, e = g.sn(args[0]), g.sn(args[1])
+    """None when g returns the number of elements e of its range parameter with !e.pred(); otherwise the reason.
+    Accepted spellings: `return std::count_if(r.begin(), r.end(), [](e){ return !e.pred(); })` and the equivalent counting
+    loop (any element-loop form) `n = 0; for (e : r) if (!e.pred()) ++n; return n;`."""
     pr = [param_root(g, i) for i in range(len(g.params))]
-    if b is None or e is None or b.get('q', '').rsplit('::', 1)[-1] not in ('begin', 'cbegin') or e.get('q', '').rsplit('::', 1)[-1] not in ('end', 'cend') \
-            or g.root_var(b.get('recv')) not in pr or g.root_var(e.get('recv')) != g.root_var(b.get('recv')):
-        return 'does not count over the whole range parameter'
-    lam = None
-    for x in g.subtree(args[2]):
-        if g.nodes[x].get('k') == 'lambda':
-            lam = fb.lambda_fn(g, g.nodes[x])
-    if lam is None:
-        return 'predicate is not a lambda'
-    lr = [n for n in lam.all_nodes() if n.get('k') == 'return' and 'sub' in n]
-    if len(lr) != 1:
-        return 'predicate shape'
-    u = lam.sn(lr[0]['sub'])
-    if u is None or u.get('k') != 'unop' or u['op'] != '!':
-        return 'predicate does not negate the removed test (it must count the elements NOT marked)'
-    p = lam.sn(u['sub'])
-    if p is None or p.get('q') != pred_q or lam.root_var(p.get('recv')) != param_root(lam, 0):
-        return 'predicate does not test the removed mark of its argument'
+    rets = [n for n in g.all_nodes() if n.get('k') == 'return' and 'sub' in n]
+    if len(rets) != 1:
+        return 'has %d return statements' % len(rets)
+    cs = calls(g, 'std::count_if')
+    if cs:
+        c = cs[0]
+        if len(cs) != 1 or c['id'] not in g.subtree(rets[0]['sub']):
+            return 'is not a single std::count_if over the range'
+        args = [a for a in c.get('args', []) if a is not None]
+        if len(args) != 3:
+            return 'count_if arity'
+        b, e = g.sn(args[0]), g.sn(args[1])
+        if b is None or e is None or b.get('q', '').rsplit('::', 1)[-1] not in ('begin', 'cbegin') or e.get('q', '').rsplit('::', 1)[-1] not in ('end', 'cend') \
+                or g.root_var(b.get('recv')) not in pr or g.root_var(e.get('recv')) != g.root_var(b.get('recv')):
+            return 'does not count over the whole range parameter'
+        lam = None
+        for x in g.subtree(args[2]):
+            if g.nodes[x].get('k') == 'lambda':
+                lam = fb.lambda_fn(g, g.nodes[x])
+        if lam is None:
+            return 'predicate is not a lambda'
+        lr = [n for n in lam.all_nodes() if n.get('k') == 'return' and 'sub' in n]
+        if len(lr) != 1:
+            return 'predicate shape'
+        u = lam.sn(lr[0]['sub'])
+        if u is None or u.get('k') != 'unop' or u['op'] != '!':
+            return 'predicate does not negate the removed test (it must count the elements NOT marked)'
+        p = lam.sn(u['sub'])
+        if p is None or p.get('q') != pred_q or lam.root_var(p.get('recv')) != param_root(lam, 0):
+            return 'predicate does not test the removed mark of its argument'
+        return None
+    # counting loop
+    rv = g.sn(rets[0]['sub'])
+    if rv is None or rv.get('k') != 'var' or rv.get('vk') != 'local':
+        return 'returns neither std::count_if nor a local counter'
+    inc = counts_from_zero_by_one(g, rv['d'])
+    if inc is None:
+        return 'the returned counter does not start at 0 / is not changed by exactly one ++'
+    loops = [L for L in elem_loops(g) if g.root_var(L.seq) in pr and loop_contains(g, L, inc)]
+    if len(loops) != 1:
+        return 'the counter is not incremented inside one loop over the whole range parameter'
+    L = loops[0]
+    conds = [(n, s_) for (n, s_) in guard_conds(g, inc) if loop_contains(g, L, n['id']) and not (n.get('k') == 'call' and n.get('op') == '!=')]
+    tests = [(n, s_) for (n, s_) in conds if n.get('k') == 'call' and n.get('q') == pred_q and L.is_elem(g, n.get('recv'))]
+    if not tests or any(s_ for (_n, s_) in tests):
+        return 'the counter is not incremented only for elements NOT carrying the removed mark'
+    if len(tests) != len([c for c in conds if not (c[0].get('k') == 'unop')]):
+        return 'the increment hangs on a further condition'
+    tid = {n['id'] for (n, _s) in tests}
+    w = every_path_passes(g, [inc], start=L.start, until=[L.inc], edge_ok=call_edge_filter(g, lambda c: c.get('id') in tid, False))
+    if w is not None:
+        return 'an unmarked element is not counted'
+    if can_follow(g, [inc], [inc], [L.inc]) is not None:
+        return 'an element can be counted twice'
     return None
 
 
@@ -620,108 +741,111 @@ def remove_rules(fb, R, M):
     mark_q, pred_q, mfield, mval, pval, mfn, pfn = mm
     R.check(mval == pval, 'R1-release-only-last-reference', M.elem + '#removed-mark-set-and-tested-with-the-same-value', mfn.site,
             '%s sets %s to %s but %s compares it with %s' % (mark_q, mfield, mval, pred_q, pval))
-    for fn in M.remove_fns:
-        q = fn.q
-        fr = _found_range(fn, M)
-        if fr is None:
-            R.broken('%s: no local initialised from the lookup' % q)
-            continue
-        rd, rname, fcall = fr
-        rroot = ('var', rd, rname)
-        proots = [param_root(fn, i) for i in range(len(fn.params))]
-        a0 = (fcall.get('args') or [None])[0]
-        p_find = proots.index(fn.root_var(a0)) if a0 is not None and fn.root_var(a0) in proots else None
-        rel = calls(fn, STASH + '::remove_item')
-        marks = calls(fn, mark_q)
-        # ---- R1
-        cnt_calls = []
-        ok = True
-        msg = ''
-        for r in rel:
-            g = []
-            for (n, s) in guard_conds(fn, r['id']):
-                if n.get('k') == 'binop' and n['op'] == '==' and s:
-                    for (x, y) in ((n['lhs'], n['rhs']), (n['rhs'], n['lhs'])):
-                        c = fn.sn(x)
-                        if fn.const_value(y) == 1 and c is not None and c.get('k') == 'call' and c.get('u') and \
-                                any(fn.root_var(a) == rroot for a in c.get('args', []) if a is not None):
-                            g.append(c)
-            if not g:
-                ok, msg = False, 'the stash release is not guarded by `<count of live references in the found range> == 1`'
-            cnt_calls.extend(g)
-        if not rel:
-            ok, msg = False, 'no stash release'
-        R.check(ok, 'R1-release-only-last-reference', q + '#release-guarded-by-exactly-one-live-reference', (fn.loc(rel[0]['id']) if rel else fn.site),
-                msg + ': an object shared by several relations would be released with the first, or never')
-        for c in cnt_calls[:1]:
-            for g in fb.by_usr.get(c['u'], [])[:1]:
-                why = _counts_unmarked(fb, g, pred_q)
-                R.check(why is None, 'R1-release-only-last-reference', g.q + '#counts-the-elements-not-marked-removed', g.site, '%s %s' % (g.q, why))
-        w = can_follow(fn, [m['id'] for m in marks], [c['id'] for c in cnt_calls] + [r['id'] for r in rel])
-        R.check(bool(marks) and w is None, 'R1-release-only-last-reference', q + '#count-and-release-before-marking', fn.site,
-                'an element can be marked removed before the live references are counted: %s' % describe_path(fn, w))
-        ok = bool(rel)
-        for r in rel:
-            hs = [fn.nodes[x] for x in fn.subtree(r['id']) if fn.nodes[x].get('k') == 'member' and fn.nodes[x].get('field')
-                  and fn.nodes[x].get('q', '').startswith(M.elem + '::') and S.plain_name(fn.nodes[x].get('t', '')) == STASH + '::handle_type']
-            ok = ok and bool(hs) and all(fn.root_var(h['id']) == rroot for h in hs)
-        R.check(ok, 'R1-release-only-last-reference', q + '#releases-the-handle-of-the-found-range', fn.site,
-                'the stash item released must be the object handle stored in the found range')
-        # ---- R3
-        loops = [L for L in elem_loops(fn) if fn.root_var(L.seq) == rroot]
-        p_rel = None
-        ok, msg = True, ''
-        if len(loops) != 1 or not marks:
-            ok, msg = False, 'no single loop over the found range that marks an element'
-        else:
-            L = loops[0]
-            lroots = L.roots
-            for m in marks:
-                if fn.root_var(m['recv']) not in lroots or not L.mutable_reference():
-                    ok, msg = False, 'the mark is not applied to the stored element (loop variable must be a non-const reference)'
-                    continue
-                gs = guard_conds(fn, m['id'])
-                unmarked = any(n.get('k') == 'call' and n.get('q') == pred_q and fn.root_var(n['recv']) in lroots and not s for (n, s) in gs)
-                same_rel = False
-                for (n, s) in gs:
+    for fn0 in M.remove_fns:
+        def body(fn, R, fn0=fn0):
+            q = fn.q
+            fr = _found_range(fn, M)
+            if fr is None:
+                R.broken('%s: no local initialised from the lookup' % q)
+                return
+            rd, rname, fcall = fr
+            rroot = ('var', rd, rname)
+            proots = [param_root(fn, i) for i in range(len(fn.params))]
+            a0 = (fcall.get('args') or [None])[0]
+            p_find = proots.index(fn.root_var(a0)) if a0 is not None and fn.root_var(a0) in proots else None
+            rel = calls(fn, STASH + '::remove_item')
+            marks = calls(fn, mark_q)
+            # ---- R1
+            cnt_calls = []
+            ok = True
+            msg = ''
+            for r in rel:
+                g = []
+                for (n, s) in guard_conds(fn, r['id']):
                     if n.get('k') == 'binop' and n['op'] == '==' and s:
                         for (x, y) in ((n['lhs'], n['rhs']), (n['rhs'], n['lhs'])):
-                            yn = fn.sn(y)
-                            if fn.root_var(x) in proots and (fn.sn(x) or {}).get('k') == 'var' and yn is not None and yn.get('q') == 'osmium::OSMObject::id':
-                                idx = [c for c in subtree_calls(fn, y, RDB + '::operator[]')
-                                       if any(_elem_field_of(fn, a, M) and fn.root_var(a) in lroots for a in c.get('args', []) if a is not None)]
-                                if idx:
-                                    same_rel = True
-                                    p_rel = proots.index(fn.root_var(x))
-                if not unmarked:
-                    ok, msg = False, 'an element already marked removed can be marked again (the live-reference count would never reach 1)'
-                elif not same_rel:
-                    ok, msg = False, 'the marked element is not tested to belong to the relation given (relation id == m_relations_db[elem.<pos>]->id())'
-            if ok and can_follow(fn, [m['id'] for m in marks], [m['id'] for m in marks]) is not None:
-                ok, msg = False, 'more than one element can be marked per call (duplicate members of one relation would never be released)'
-        R.check(ok, 'R3-remove-marks-exactly-one', q + '#marks-one-live-element-of-that-relation', fn.site, msg)
-        # ---- R2 roles at the call sites
-        ncs = 0
-        ok, msg = p_find is not None and p_rel is not None and p_find != p_rel, 'cannot tell the searched parameter from the relation-id parameter'
-        if ok:
-            for g in fb.functions:
-                if not g.has_cfg:
-                    continue
-                for c in calls(g, q):
-                    if not live(g, c['id']):
+                            c = origin(fn, x)
+                            if fn.const_value(y) == 1 and c is not None and c.get('k') == 'call' and c.get('u') and \
+                                    any(fn.root_var(a) == rroot for a in c.get('args', []) if a is not None):
+                                g.append(c)
+                if not g:
+                    ok, msg = False, 'the stash release is not guarded by `<count of live references in the found range> == 1`'
+                cnt_calls.extend(g)
+            if not rel:
+                ok, msg = False, 'no stash release'
+            R.check(ok, 'R1-release-only-last-reference', q + '#release-guarded-by-exactly-one-live-reference', (fn.loc(rel[0]['id']) if rel else fn.site),
+                    msg + ': an object shared by several relations would be released with the first, or never')
+            for c in cnt_calls[:1]:
+                for g in fb.by_usr.get(c['u'], [])[:1]:
+                    why = _counts_unmarked(fb, g, pred_q)
+                    R.check(why is None, 'R1-release-only-last-reference', g.q + '#counts-the-elements-not-marked-removed', g.site, '%s %s' % (g.q, why))
+            w = can_follow(fn, [m['id'] for m in marks], [c['id'] for c in cnt_calls] + [r['id'] for r in rel])
+            R.check(bool(marks) and w is None, 'R1-release-only-last-reference', q + '#count-and-release-before-marking', fn.site,
+                    'an element can be marked removed before the live references are counted: %s' % describe_path(fn, w))
+            ok = bool(rel)
+            for r in rel:
+                srcs = [r['id']] + [o['id'] for o in (origin(fn, a) for a in r.get('args', []) if a is not None) if o is not None]
+                hs = [fn.nodes[x] for sid in srcs for x in fn.subtree(sid) if fn.nodes[x].get('k') == 'member' and fn.nodes[x].get('field')
+                      and fn.nodes[x].get('q', '').startswith(M.elem + '::') and S.plain_name(fn.nodes[x].get('t', '')) == STASH + '::handle_type']
+                ok = ok and bool(hs) and all(fn.root_var(h['id']) == rroot for h in hs)
+            R.check(ok, 'R1-release-only-last-reference', q + '#releases-the-handle-of-the-found-range', fn.site,
+                    'the stash item released must be the object handle stored in the found range')
+            # ---- R3
+            loops = [L for L in elem_loops(fn) if fn.root_var(L.seq) == rroot and (not marks or any(loop_contains(fn, L, m['id']) for m in marks))]
+            p_rel = None
+            ok, msg = True, ''
+            if len(loops) != 1 or not marks:
+                ok, msg = False, 'no single loop over the found range that marks an element'
+            else:
+                L = loops[0]
+                lroots = L.roots
+                for m in marks:
+                    if fn.root_var(m['recv']) not in lroots or not L.mutable_reference():
+                        ok, msg = False, 'the mark is not applied to the stored element (loop variable must be a non-const reference)'
                         continue
-                    ncs += 1
-                    args = [a for a in c.get('args', [])]
-                    a_f, a_r = g.sn(args[p_find]), g.sn(args[p_rel])
-                    if a_f is None or a_f.get('q') != MEMBER + '::ref':
-                        ok, msg = False, '%s passes %s as the member id' % (g.q, g.expr(args[p_find])[:50])
-                    if a_r is None or a_r.get('q') != 'osmium::OSMObject::id' or not [x for x in g.subtree(args[p_rel]) if g.nodes[x].get('q') in (RH + '::operator->', RH + '::operator*')]:
-                        ok, msg = False, '%s passes %s as the relation id' % (g.q, g.expr(args[p_rel])[:50])
-            if ncs == 0:
-                R.broken('%s has no live caller in the fact base' % q)
-                continue
-        R.check(ok, 'R2-remove-argument-roles', q + '#member-ref-is-searched-relation-id-is-matched', fn.site, msg)
-        M.remove_roles = (p_find, p_rel)
+                    gs = guard_conds(fn, m['id'])
+                    unmarked = any(n.get('k') == 'call' and n.get('q') == pred_q and fn.root_var(n['recv']) in lroots and not s for (n, s) in gs)
+                    same_rel = False
+                    for (n, s) in gs:
+                        if n.get('k') == 'binop' and n['op'] == '==' and s:
+                            for (x, y) in ((n['lhs'], n['rhs']), (n['rhs'], n['lhs'])):
+                                yn = fn.sn(y)
+                                if fn.root_var(x) in proots and (fn.sn(x) or {}).get('k') == 'var' and yn is not None and yn.get('q') == 'osmium::OSMObject::id':
+                                    idx = [c for c in subtree_calls(fn, y, RDB + '::operator[]')
+                                           if any(_elem_field_of(fn, a, M) and fn.root_var(a) in lroots for a in c.get('args', []) if a is not None)]
+                                    if idx:
+                                        same_rel = True
+                                        p_rel = proots.index(fn.root_var(x))
+                    if not unmarked:
+                        ok, msg = False, 'an element already marked removed can be marked again (the live-reference count would never reach 1)'
+                    elif not same_rel:
+                        ok, msg = False, 'the marked element is not tested to belong to the relation given (relation id == m_relations_db[elem.<pos>]->id())'
+                if ok and can_follow(fn, [m['id'] for m in marks], [m['id'] for m in marks]) is not None:
+                    ok, msg = False, 'more than one element can be marked per call (duplicate members of one relation would never be released)'
+            R.check(ok, 'R3-remove-marks-exactly-one', q + '#marks-one-live-element-of-that-relation', fn.site, msg)
+            # ---- R2 roles at the call sites
+            ncs = 0
+            ok, msg = p_find is not None and p_rel is not None and p_find != p_rel, 'cannot tell the searched parameter from the relation-id parameter'
+            if ok:
+                for g in fb.functions:
+                    if not g.has_cfg:
+                        continue
+                    for c in calls(g, q):
+                        if not live(g, c['id']):
+                            continue
+                        ncs += 1
+                        args = [a for a in c.get('args', [])]
+                        a_f, a_r = g.sn(args[p_find]), g.sn(args[p_rel])
+                        if a_f is None or a_f.get('q') != MEMBER + '::ref':
+                            ok, msg = False, '%s passes %s as the member id' % (g.q, g.expr(args[p_find])[:50])
+                        if a_r is None or a_r.get('q') != 'osmium::OSMObject::id' or not [x for x in g.subtree(args[p_rel]) if g.nodes[x].get('q') in (RH + '::operator->', RH + '::operator*')]:
+                            ok, msg = False, '%s passes %s as the relation id' % (g.q, g.expr(args[p_rel])[:50])
+                if ncs == 0:
+                    R.broken('%s has no live caller in the fact base' % q)
+                    return
+            R.check(ok, 'R2-remove-argument-roles', q + '#member-ref-is-searched-relation-id-is-matched', fn.site, msg)
+            M.remove_roles = (p_find, p_rel)
+        per_fn(fb, R, M, fn0, body)
 
 
 # ================================================================================================ manager: second pass
@@ -810,79 +934,81 @@ def second_pass_rules(fb, R, M):
     hq = list(completion_q)[0]
     rem_q = set(_one_q(M.remove_fns))
     p_find, p_rel = getattr(M, 'remove_roles', (None, None))
-    for fn in fb.fns(hq):
-        q = fn.q
-        h = param_root(fn, 0)
-        cbs = [n for n in _derived_hook_calls(fn, 'complete_relation')
-               if [x for a in n.get('args', []) if a is not None for x in subtree_calls(fn, a, RH + '::operator*') if fn.root_var(x['id']) == h]]
-        why = exactly_once(fn, [n['id'] for n in cbs]) if cbs else 'no derived().complete_relation(*handle) call'
-        R.check(why is None, 'H1-callback-before-release', q + '#callback-exactly-once', fn.site, 'completion callback: %s' % why)
-        rels = [n for n in fn.all_nodes() if n.get('k') == 'call' and n.get('u') and n['id'] not in {c['id'] for c in cbs}
-                and not n.get('q', '').startswith('std::') and _reaches_stash_release(fb, n)]
-        mrel = [n for n in rels if n['q'] in rem_q]
-        rrel = [n for n in rels if n['q'] == RH + '::remove' and fn.root_var(n['recv']) == h]
-        other = [n for n in rels if n not in mrel and n not in rrel]
-        for (lst, what) in ((mrel, 'member'), (rrel, 'relation')):
-            bad = [n for n in lst if not any(fn.elem_dominates(c['id'], n['id']) for c in cbs)]
-            R.check(bool(cbs) and not bad, 'H1-callback-before-release', '%s#callback-dominates-%s-release' % (q, what),
-                    fn.loc(bad[0]['id']) if bad else fn.site,
-                    'the %s is released from the stash before complete_relation() has run: the callback would read freed items' % what)
-        R.check(not other, 'H1-callback-before-release', q + '#no-other-stash-release', fn.loc(other[0]['id']) if other else fn.site,
-                'unexpected call reaching ItemStash::remove_item: %s' % (other[0]['q'] if other else ''))
-        # every wanted member released
-        ok, msg = True, ''
-        loops = [L for L in elem_loops(fn)
-                 if (origin(fn, L.seq) or {}).get('q') == 'osmium::Relation::members' and fn.root_var((origin(fn, L.seq) or {}).get('id')) == h]
-        if len(loops) != 1 or not mrel:
-            ok, msg = False, 'no single loop over handle->members() that releases the members'
-        else:
-            L = loops[0]
-            lroots = L.roots
-            for n in mrel:
-                if not in_loop(fn, L, n['id']):
-                    ok, msg = False, 'member release outside the member loop'
-                    continue
-                args = n.get('args', [])
-                rc = origin(fn, n['recv'])
-                sel = rc is not None and rc.get('q') == RMB + '::member_database' and \
-                    any((fn.sn(a) or {}).get('q') == MEMBER + '::type' and fn.root_var(a) in lroots for a in rc.get('args', []) if a is not None)
-                if not sel:
-                    ok, msg = False, 'the database is not selected by member_database(member.type()) of the current member'
-                elif p_find is not None and not ((fn.sn(args[p_find]) or {}).get('q') == MEMBER + '::ref' and fn.root_var(args[p_find]) in lroots):
-                    ok, msg = False, 'the member released is not the current member\'s ref()'
-                elif p_rel is not None and fn.root_var(args[p_rel]) != h:
-                    ok, msg = False, 'the relation id given is not the completed relation\'s'
-                for (g, s) in guard_conds(fn, n['id']):
-                    if not in_loop(fn, L, g['id']) or g['id'] == fn.strip(fn.blocks[fn.positions()[L.inc][0]].get('cond', -1)):
+    for fn0 in fb.fns(hq):
+        def body(fn, R, fn0=fn0):
+            q = fn.q
+            h = param_root(fn, 0)
+            cbs = [n for n in _derived_hook_calls(fn, 'complete_relation')
+                   if [x for a in n.get('args', []) if a is not None for x in subtree_calls(fn, a, RH + '::operator*') if fn.root_var(x['id']) == h]]
+            why = exactly_once(fn, [n['id'] for n in cbs]) if cbs else 'no derived().complete_relation(*handle) call'
+            R.check(why is None, 'H1-callback-before-release', q + '#callback-exactly-once', fn.site, 'completion callback: %s' % why)
+            rels = [n for n in fn.all_nodes() if n.get('k') == 'call' and n.get('u') and n['id'] not in {c['id'] for c in cbs}
+                    and not n.get('_inlined') and not n.get('q', '').startswith('std::') and _reaches_stash_release(fb, n)]
+            mrel = [n for n in rels if n['q'] in rem_q]
+            rrel = [n for n in rels if n['q'] == RH + '::remove' and fn.root_var(n['recv']) == h]
+            other = [n for n in rels if n not in mrel and n not in rrel]
+            for (lst, what) in ((mrel, 'member'), (rrel, 'relation')):
+                bad = [n for n in lst if not any(fn.elem_dominates(c['id'], n['id']) for c in cbs)]
+                R.check(bool(cbs) and not bad, 'H1-callback-before-release', '%s#callback-dominates-%s-release' % (q, what),
+                        fn.loc(bad[0]['id']) if bad else fn.site,
+                        'the %s is released from the stash before complete_relation() has run: the callback would read freed items' % what)
+            R.check(not other, 'H1-callback-before-release', q + '#no-other-stash-release', fn.loc(other[0]['id']) if other else fn.site,
+                    'unexpected call reaching ItemStash::remove_item: %s' % (other[0]['q'] if other else ''))
+            # every wanted member released
+            ok, msg = True, ''
+            loops = [L for L in elem_loops(fn)
+                     if (origin(fn, L.seq) or {}).get('q') == 'osmium::Relation::members' and fn.root_var((origin(fn, L.seq) or {}).get('id')) == h]
+            if len(loops) != 1 or not mrel:
+                ok, msg = False, 'no single loop over handle->members() that releases the members'
+            else:
+                L = loops[0]
+                lroots = L.roots
+                for n in mrel:
+                    if not loop_contains(fn, L, n['id']):
+                        ok, msg = False, 'member release outside the member loop'
                         continue
-                    z = zero_test(fn, g)
-                    zn = fn.sn(z[1]) if z else None
-                    if g.get('k') == 'call' and g.get('op') == '!=' and g.get('q', '').endswith('operator!='):
-                        continue        # the loop condition itself
-                    if not (z and zn is not None and zn.get('q') == MEMBER + '::ref' and fn.root_var(z[1]) in lroots and ((z[0] == '!=') == s)):
-                        ok, msg = False, 'the release is subject to a condition other than member.ref() != 0: %s' % fn.expr(g['id'])[:60]
-            if ok:
-                def edge_ok(b, idx, s, fn=fn, lroots=lroots):
-                    blk = fn.blocks[b]
-                    if 'cond' in blk and len(blk['succs']) == 2:
-                        z = zero_test(fn, fn.sn(blk['cond']))
-                        if z and (fn.sn(z[1]) or {}).get('q') == MEMBER + '::ref' and fn.root_var(z[1]) in lroots:
-                            return idx == (0 if z[0] == '!=' else 1)
-                    return True
-                w = every_path_passes(fn, [n['id'] for n in mrel], start=L.start, until=[L.inc], edge_ok=edge_ok)
-                if w is not None:
-                    ok, msg = False, 'a wanted member (ref != 0) is not released: ' + describe_path(fn, w)
-                elif can_follow(fn, [n['id'] for n in mrel], [n['id'] for n in mrel], [L.inc]) is not None:
-                    ok, msg = False, 'a member can be released twice in one iteration'
-        R.check(ok, 'H1-callback-before-release', q + '#every-wanted-member-released', fn.site, msg)
-        why = exactly_once(fn, [n['id'] for n in rrel]) if rrel else 'handle.remove() missing: a completed relation stays in the database and is listed as incomplete'
-        if why is None and can_follow(fn, [n['id'] for n in rrel], [n['id'] for n in mrel]) is not None:
-            why = 'the relation is released before its members (remove() reads the relation id from the released item)'
-        R.check(why is None, 'H1-callback-before-release', q + '#relation-released-once-after-its-members', fn.site, 'relation release: %s' % why)
-        fl = calls(fn, flush_q) + calls(fn, RMB + '::flush_output')
-        here = bool(cbs) and bool(fl) and all(every_path_passes(fn, [n['id'] for n in fl], start=c['id']) is None for c in cbs)
-        R.check(here or (handler_flush_ok and all(handler_flush_ok.values())), 'H1-callback-before-release', q + '#output-offered-to-flush', fn.site,
-                'after the completion callback no possibly_flush() is reached, neither here nor in every second-pass handler after add()')
+                    args = n.get('args', [])
+                    rc = origin(fn, n['recv'])
+                    sel = rc is not None and rc.get('q') == RMB + '::member_database' and \
+                        any((fn.sn(a) or {}).get('q') == MEMBER + '::type' and fn.root_var(a) in lroots for a in rc.get('args', []) if a is not None)
+                    if not sel:
+                        ok, msg = False, 'the database is not selected by member_database(member.type()) of the current member'
+                    elif p_find is not None and not ((fn.sn(args[p_find]) or {}).get('q') == MEMBER + '::ref' and fn.root_var(args[p_find]) in lroots):
+                        ok, msg = False, 'the member released is not the current member\'s ref()'
+                    elif p_rel is not None and fn.root_var(args[p_rel]) != h:
+                        ok, msg = False, 'the relation id given is not the completed relation\'s'
+                    for (g, s) in guard_conds(fn, n['id']):
+                        if not loop_contains(fn, L, g['id']) or g['id'] == fn.strip(fn.blocks[fn.positions()[L.inc][0]].get('cond', -1)):
+                            continue
+                        z = zero_test(fn, g)
+                        zn = fn.sn(z[1]) if z else None
+                        if g.get('k') == 'call' and g.get('op') == '!=' and g.get('q', '').endswith('operator!='):
+                            continue        # the loop condition itself
+                        if not (z and zn is not None and zn.get('q') == MEMBER + '::ref' and fn.root_var(z[1]) in lroots and ((z[0] == '!=') == s)):
+                            ok, msg = False, 'the release is subject to a condition other than member.ref() != 0: %s' % fn.expr(g['id'])[:60]
+                if ok:
+                    def edge_ok(b, idx, s, fn=fn, lroots=lroots):
+                        blk = fn.blocks[b]
+                        if 'cond' in blk and len(blk['succs']) == 2:
+                            z = zero_test(fn, fn.sn(blk['cond']))
+                            if z and (fn.sn(z[1]) or {}).get('q') == MEMBER + '::ref' and fn.root_var(z[1]) in lroots:
+                                return idx == (0 if z[0] == '!=' else 1)
+                        return True
+                    w = every_path_passes(fn, [n['id'] for n in mrel], start=L.start, until=[L.inc], edge_ok=edge_ok)
+                    if w is not None:
+                        ok, msg = False, 'a wanted member (ref != 0) is not released: ' + describe_path(fn, w)
+                    elif can_follow(fn, [n['id'] for n in mrel], [n['id'] for n in mrel], [L.inc]) is not None:
+                        ok, msg = False, 'a member can be released twice in one iteration'
+            R.check(ok, 'H1-callback-before-release', q + '#every-wanted-member-released', fn.site, msg)
+            why = exactly_once(fn, [n['id'] for n in rrel]) if rrel else 'handle.remove() missing: a completed relation stays in the database and is listed as incomplete'
+            if why is None and can_follow(fn, [n['id'] for n in rrel], [n['id'] for n in mrel]) is not None:
+                why = 'the relation is released before its members (remove() reads the relation id from the released item)'
+            R.check(why is None, 'H1-callback-before-release', q + '#relation-released-once-after-its-members', fn.site, 'relation release: %s' % why)
+            fl = calls(fn, flush_q) + calls(fn, RMB + '::flush_output')
+            here = bool(cbs) and bool(fl) and all(every_path_passes(fn, [n['id'] for n in fl], start=c['id']) is None for c in cbs)
+            R.check(here or (handler_flush_ok and all(handler_flush_ok.values())), 'H1-callback-before-release', q + '#output-offered-to-flush', fn.site,
+                    'after the completion callback no possibly_flush() is reached, neither here nor in every second-pass handler after add()')
+        per_fn(fb, R, M, fn0, body)
 
 
 # ================================================================================================ manager: first pass
@@ -896,114 +1022,118 @@ def fn_path_from_block(fn, bid, barrier_ids, target_ids):
 
 def first_pass_rules(fb, R, M):
     track_q = set(f.q for f in M.track_fns)
-    fns = [f for f in fb.functions if f.cls == RM and f.has_cfg and not f.is_lambda and any(calls(f, tq) for tq in track_q)]
+    direct = [f for f in fb.functions if f.cls == RM and f.has_cfg and not f.is_lambda and any(calls(f, tq) for tq in track_q)]
+    via = [f for (f, _v) in M.proto._callers_on_this({f.usr for f in direct}).values() if f.cls == RM and not f.is_lambda]
+    fns = _tops(direct + via)
     zero_sites = set()
     if not fns:
         R.broken('no RelationsManager method that tracks members (relation) found')
         return
-    for fn in fns:
-        q = fn.q
-        hv = None
-        addc = None
-        for n in fn.all_nodes():
-            if n.get('k') == 'decl':
-                for v in n['vars']:
-                    if isinstance(v.get('init'), int):
-                        cs = subtree_calls(fn, v['init'], RDB + '::add')
-                        if cs:
-                            hv, addc = ('var', v['d'], v['name']), cs[0]
-        if hv is None:
-            R.broken('%s: the relation is not stored through RelationsDatabase::add' % q)
-            continue
-        ok = fn.root_var(addc['args'][0]) == param_root(fn, 0)
-        g = [(n, s) for (n, s) in guard_conds(fn, addc['id']) if n.get('k') == 'call' and n.get('q', '').endswith('::new_relation')]
-        ok = ok and bool(g) and all(s for (_n, s) in g) and all(fn.root_var((n.get('args') or [None])[0]) == param_root(fn, 0) for (n, _s) in g)
-        R.check(ok, 'W1-track-xor-mark', q + '#stored-only-if-new_relation-accepts-it', fn.loc(addc['id']),
-                'the relation must be stored exactly under derived().new_relation(relation)')
-        loops = [L for L in elem_loops(fn) if (origin(fn, L.seq) or {}).get('q') == 'osmium::Relation::members' and fn.root_var((origin(fn, L.seq) or {}).get('id')) == hv]
-        if len(loops) != 1:
-            R.bad('W1-track-xor-mark', q + '#each-member-tracked-xor-zeroed', fn.site,
-                  'no single loop over the members of the STORED relation copy (handle->members())')
-            continue
-        L = loops[0]
-        lroots = L.roots
-        tracks = [c for tq in track_q for c in calls(fn, tq)]
-        zeros = [c for c in [c for c in calls(fn, MEMBER + '::set_ref') if fn.root_var(c['recv']) in lroots] if fn.const_value((c.get('args') or [None])[0]) == 0]
-        zero_sites |= {(fn.q, c['id']) for c in zeros}
-        ids = [c['id'] for c in tracks + zeros]
-        ok, msg = True, ''
-        if not L.mutable_reference():
-            ok, msg = False, 'the loop variable is not a mutable reference: set_ref(0) would not reach the stored copy'
-        elif not zeros:
-            ok, msg = False, 'uninteresting members are not zeroed: consumers would look them up / release them'
-        else:
-            why = exactly_once(fn, ids, start=L.start, until=[L.inc])
-            if why is not None:
-                ok, msg = False, 'per member, track() / set_ref(0): %s' % why
-        for c in tracks:
-            args = c.get('args', [])
-            rc = origin(fn, c['recv'])
-            sel = rc is not None and rc.get('q') == RMB + '::member_database' and \
-                any((fn.sn(a) or {}).get('q') == MEMBER + '::type' and fn.root_var(a) in lroots for a in rc.get('args', []) if a is not None)
-            refs = [a for a in args if a is not None and (fn.sn(a) or {}).get('q') == MEMBER + '::ref' and fn.root_var(a) in lroots]
-            if ok and not (sel and refs and any(fn.root_var(a) == hv for a in args if a is not None)):
-                ok, msg = False, 'track() must be called on member_database(member.type()) with the stored relation\'s handle and member.ref() of the current member'
-        R.check(ok, 'W1-track-xor-mark', q + '#each-member-tracked-xor-zeroed', fn.site, msg)
-        # interest test
-        ok, msg = bool(tracks) and bool(zeros), 'track()/set_ref(0) missing'
-        if ok:
-            def interest(c):
-                out = []
-                for (n, s) in guard_conds(fn, c['id']):
-                    if not in_loop(fn, L, n['id']):
-                        continue
-                    src = origin(fn, n['id']) or n
-                    sub = [fn.nodes[x] for x in fn.subtree(src['id'])]
-                    if any(x.get('q', '').endswith('::wanted_type') for x in sub) and any(x.get('q', '').endswith('::new_member') for x in sub):
-                        out.append((n['id'], s))
-                return out
-            ti = [interest(c) for c in tracks]
-            if not all(t and all(s for (_i, s) in t) for t in ti):
-                ok, msg = False, 'track() is not restricted to wanted_type(member.type()) && new_member(...)'
+    for fn0 in fns:
+        def body(fn, R, fn0=fn0):
+            q = fn.q
+            hv = None
+            addc = None
+            for n in fn.all_nodes():
+                if n.get('k') == 'decl':
+                    for v in n['vars']:
+                        if isinstance(v.get('init'), int):
+                            cs = subtree_calls(fn, v['init'], RDB + '::add')
+                            if cs:
+                                hv, addc = ('var', v['d'], v['name']), cs[0]
+            if hv is None:
+                R.broken('%s: the relation is not stored through RelationsDatabase::add' % q)
+                return
+            ok = fn.root_var(addc['args'][0]) == param_root(fn, 0)
+            g = [(n, s) for (n, s) in guard_conds(fn, addc['id']) if n.get('k') == 'call' and n.get('q', '').endswith('::new_relation')]
+            ok = ok and bool(g) and all(s for (_n, s) in g) and all(fn.root_var((n.get('args') or [None])[0]) == param_root(fn, 0) for (n, _s) in g)
+            R.check(ok, 'W1-track-xor-mark', q + '#stored-only-if-new_relation-accepts-it', fn.loc(addc['id']),
+                    'the relation must be stored exactly under derived().new_relation(relation)')
+            loops = [L for L in elem_loops(fn) if (origin(fn, L.seq) or {}).get('q') == 'osmium::Relation::members' and fn.root_var((origin(fn, L.seq) or {}).get('id')) == hv]
+            if len(loops) != 1:
+                R.bad('W1-track-xor-mark', q + '#each-member-tracked-xor-zeroed', fn.site,
+                      'no single loop over the members of the STORED relation copy (handle->members())')
+                return
+            L = loops[0]
+            lroots = L.roots
+            tracks = [c for tq in track_q for c in calls(fn, tq)]
+            zeros = [c for c in [c for c in calls(fn, MEMBER + '::set_ref') if fn.root_var(c['recv']) in lroots] if fn.const_value((c.get('args') or [None])[0]) == 0]
+            zero_sites.update(_site_id(fn, c) for c in zeros)
+            ids = [c['id'] for c in tracks + zeros]
+            ok, msg = True, ''
+            if not L.mutable_reference():
+                ok, msg = False, 'the loop variable is not a mutable reference: set_ref(0) would not reach the stored copy'
+            elif not zeros:
+                ok, msg = False, 'uninteresting members are not zeroed: consumers would look them up / release them'
             else:
-                # given "exactly one of track / set_ref(0) per member" (instance above), set_ref(0) happens exactly when the
-                # interest test is false iff track() is reached whenever the test is true
-                cids = {i for t in ti for (i, _s) in t}
+                why = exactly_once(fn, ids, start=L.start, until=[L.inc])
+                if why is not None:
+                    ok, msg = False, 'per member, track() / set_ref(0): %s' % why
+            for c in tracks:
+                args = c.get('args', [])
+                rc = origin(fn, c['recv'])
+                sel = rc is not None and rc.get('q') == RMB + '::member_database' and \
+                    any((fn.sn(a) or {}).get('q') == MEMBER + '::type' and fn.root_var(a) in lroots for a in rc.get('args', []) if a is not None)
+                refs = [a for a in args if a is not None and (fn.sn(a) or {}).get('q') == MEMBER + '::ref' and fn.root_var(a) in lroots]
+                if ok and not (sel and refs and any(fn.root_var(a) == hv for a in args if a is not None)):
+                    ok, msg = False, 'track() must be called on member_database(member.type()) with the stored relation\'s handle and member.ref() of the current member'
+            R.check(ok, 'W1-track-xor-mark', q + '#each-member-tracked-xor-zeroed', fn.site, msg)
+            # interest test
+            ok, msg = bool(tracks) and bool(zeros), 'track()/set_ref(0) missing'
+            if ok:
+                def interest(c):
+                    out = []
+                    for (n, s) in guard_conds(fn, c['id']):
+                        if not loop_contains(fn, L, n['id']):
+                            continue
+                        src = origin(fn, n['id']) or n
+                        sub = [fn.nodes[x] for x in fn.subtree(src['id'])]
+                        if any(x.get('q', '').endswith('::wanted_type') for x in sub) and any(x.get('q', '').endswith('::new_member') for x in sub):
+                            out.append((n['id'], s))
+                    return out
+                ti = [interest(c) for c in tracks]
+                if not all(t and all(s for (_i, s) in t) for t in ti):
+                    ok, msg = False, 'track() is not restricted to wanted_type(member.type()) && new_member(...)'
+                else:
+                    # given "exactly one of track / set_ref(0) per member" (instance above), set_ref(0) happens exactly when the
+                    # interest test is false iff track() is reached whenever the test is true
+                    cids = {i for t in ti for (i, _s) in t}
 
-                for b in fn.blocks.values():
-                    if 'cond' in b and len(b['succs']) == 2 and fn.strip(b['cond']) in cids and b['succs'][0] is not None:
-                        w = fn_path_from_block(fn, b['succs'][0], [c['id'] for c in tracks], [L.inc])
-                        if w is not None:
-                            ok, msg = False, 'a member that passes the interest test is not tracked (and therefore zeroed): ' + describe_path(fn, w)
-        R.check(ok, 'W1-track-xor-mark', q + '#zeroed-exactly-when-uninteresting', fn.site, msg)
-        # W2 counter
-        ok, msg = bool(tracks), 'no track() call'
-        for c in tracks:
-            cv = [fn.sn(a) for a in c.get('args', []) if a is not None and (fn.sn(a) or {}).get('k') == 'var' and (fn.sn(a) or {}).get('vk') == 'local'
-                  and fn.root_var(a) != hv]
-            if len(cv) != 1:
-                ok, msg = False, 'the member position passed to track() is not a local counter'
-                continue
-            d = cv[0]['d']
-            inc = counts_from_zero_by_one(fn, d)
-            if inc is None or not in_loop(fn, L, inc):
-                ok, msg = False, 'the position counter does not start at 0 / is not incremented by one inside the member loop'
-            elif exactly_once(fn, [inc], start=L.start, until=[L.inc]) is not None:
-                ok, msg = False, 'the position counter is not incremented exactly once per member (skipped members shift all later positions)'
-            elif can_follow(fn, [inc], [c['id']], [L.inc]) is not None:
-                ok, msg = False, 'the position counter is incremented before it is passed to track()'
-            else:
-                decl_in_loop = [n for n in fn.all_nodes() if n.get('k') == 'decl' and any(v['d'] == d for v in n['vars']) and in_loop(fn, L, n['id'])]
-                if decl_in_loop:
-                    ok, msg = False, 'the position counter is re-initialised for every member'
-        R.check(ok, 'W2-member-position-counter', q + '#position-counter', fn.site, msg)
+                    for b in fn.blocks.values():
+                        if 'cond' in b and len(b['succs']) == 2 and fn.strip(b['cond']) in cids and b['succs'][0] is not None:
+                            w = fn_path_from_block(fn, b['succs'][0], [c['id'] for c in tracks], [L.inc])
+                            if w is not None:
+                                ok, msg = False, 'a member that passes the interest test is not tracked (and therefore zeroed): ' + describe_path(fn, w)
+            R.check(ok, 'W1-track-xor-mark', q + '#zeroed-exactly-when-uninteresting', fn.site, msg)
+            # W2 counter
+            ok, msg = bool(tracks), 'no track() call'
+            for c in tracks:
+                cv = [fn.sn(a) for a in c.get('args', []) if a is not None and (fn.sn(a) or {}).get('k') == 'var' and (fn.sn(a) or {}).get('vk') == 'local'
+                      and fn.root_var(a) != hv]
+                if len(cv) != 1:
+                    ok, msg = False, 'the member position passed to track() is not a local counter'
+                    continue
+                d = cv[0]['d']
+                inc = counts_from_zero_by_one(fn, d)
+                if inc is None or not loop_contains(fn, L, inc):
+                    ok, msg = False, 'the position counter does not start at 0 / is not incremented by one inside the member loop'
+                elif exactly_once(fn, [inc], start=L.start, until=[L.inc]) is not None:
+                    ok, msg = False, 'the position counter is not incremented exactly once per member (skipped members shift all later positions)'
+                elif can_follow(fn, [inc], [c['id']], [L.inc]) is not None:
+                    ok, msg = False, 'the position counter is incremented before it is passed to track()'
+                else:
+                    decl_in_loop = [n for n in fn.all_nodes() if n.get('k') == 'decl' and any(v['d'] == d for v in n['vars']) and loop_contains(fn, L, n['id'])]
+                    if decl_in_loop:
+                        ok, msg = False, 'the position counter is re-initialised for every member'
+            R.check(ok, 'W2-member-position-counter', q + '#position-counter', fn.site, msg)
+        per_fn(fb, R, M, fn0, body)
     # only writer of ref 0 / any set_ref in the manager classes
     fam = {RMB, RM, MDC, MD, RDB} | {r.q for r in fb.derived_from(RMB)}
     others = []
     for f in fb.functions:
         if f.has_cfg and (f.cls in fam or (f.is_lambda and any(f.q.startswith(c + '::') for c in fam))):
             for c in calls(f, MEMBER + '::set_ref'):
-                if (f.q, c['id']) not in zero_sites:
+                if _site_id(f, c) not in zero_sites:
                     others.append((f, c))
     R.check(not others, 'W1-track-xor-mark', MEMBER + '::set_ref#only-written-by-the-first-pass-interest-test',
             others[0][0].loc(others[0][1]['id']) if others else fns[0].site,
@@ -1208,7 +1338,7 @@ def listing_rules(fb, R, M):
                 if b.get('termcls') == 'ForStmt' and 'cond' in b:
                     c = fn.sn(b['cond'])
                     if c is not None and c.get('k') == 'binop' and c['op'] in ('<', '!=') and fn.root_var(c['lhs']) == idx:
-                        sz = fn.sn(c['rhs'])
+                        sz = origin(fn, c['rhs'])
                         if sz is not None and sz.get('q') == 'std::vector::size' and fn.root_var(sz['recv']) == fn.root_var(
                                 subtree_calls(fn, fc[0]['id'], 'std::vector::operator[]')[0]['recv'] if subtree_calls(fn, fc[0]['id'], 'std::vector::operator[]') else sz['recv']):
                             ok = inc is not None
